@@ -4,10 +4,14 @@ import (
 	"bytes"
 	"context"
 	"crypto/tls"
+	"crypto/x509"
 	"encoding/json"
 	"fmt"
+	"github.com/ansible/receptor/pkg/certificates"
 	"os"
+	"path/filepath"
 	"strings"
+	"sync"
 	"time"
 
 	"github.com/ansible/receptor/pkg/netceptor"
@@ -26,6 +30,41 @@ type C19Scn struct {
 	Params []C19Param `json:"params"`
 	TLS    bool       `json:"tls"` // the submission names a TLS client profile
 	Ops    []string   `json:"ops"` // status | statusjson | list | listid | cancel | release | restart
+	// Remote: "" = the target node does not exist (the unit stays pending); "refuse" = a real second node with a TLS control
+	// service is reachable and refuses the submission (work type unknown there): its answer travels back in an error text
+	Remote string `json:"remote,omitempty"`
+}
+
+var (
+	c19TLSOnce              sync.Once
+	c19ServerCfg, c19CliCfg *tls.Config
+	c19TLSErr               error
+)
+
+// c19TLS: a CA, a server certificate for node n1 (receptor name n1) and a client profile that trusts the CA; made once.
+func c19TLS() (*tls.Config, *tls.Config, error) {
+	c19TLSOnce.Do(func() {
+		ca, err := certificates.CreateCA(&certificates.CertOptions{CommonName: "c19 ca", Bits: 2048}, &certificates.RsaWrapper{})
+		if err != nil {
+			c19TLSErr = err
+			return
+		}
+		req, key, err := certificates.CreateCertReqWithKey(&certificates.CertOptions{CommonName: "n1", Bits: 2048, CertNames: certificates.CertNames{NodeIDs: []string{"n1"}}})
+		if err != nil {
+			c19TLSErr = err
+			return
+		}
+		cert, err := certificates.SignCertReq(req, ca, &certificates.CertOptions{})
+		if err != nil {
+			c19TLSErr = err
+			return
+		}
+		pool := x509.NewCertPool()
+		pool.AddCert(ca.Certificate)
+		c19ServerCfg = &tls.Config{Certificates: []tls.Certificate{{Certificate: [][]byte{cert.Raw}, PrivateKey: key}}, MinVersion: tls.VersionTLS12}
+		c19CliCfg = &tls.Config{RootCAs: pool, MinVersion: tls.VersionTLS12}
+	})
+	return c19ServerCfg, c19CliCfg, c19TLSErr
 }
 
 // isSecretKey is the reference reading of "names begin with 'secret_' in any letter case" (ASCII case folding).
@@ -65,7 +104,40 @@ func execC19(b []byte) vx.Verdict {
 	defer cancel()
 	n := netceptor.New(ctx, "n0")
 	defer n.Shutdown()
-	_ = n.SetClientTLSConfig("tlsc", &tls.Config{MinVersion: tls.VersionTLS12}, [][]byte{})
+	cliCfg := &tls.Config{MinVersion: tls.VersionTLS12}
+	targetNode, targetType := "absent", "prod"
+	if s.Remote == "refuse" {
+		srvCfg, cc, terr := c19TLS()
+		if terr != nil {
+			return vx.Inconclusive("tls material: %v", terr)
+		}
+		cliCfg = cc
+		n1 := netceptor.New(ctx, "n1")
+		defer n1.Shutdown()
+		b0, b1 := vx.NewMemBackend(), vx.NewMemBackend()
+		_ = n.AddBackend(b0)
+		_ = n1.AddBackend(b1)
+		pair := vx.NewSessionPair(vx.LinkSpec{Ordered: true}, nil)
+		defer pair.Cut()
+		if !b0.Offer(pair.A, 5*time.Second) || !b1.Offer(pair.B, 5*time.Second) {
+			return vx.Inconclusive("link n0-n1 not taken")
+		}
+		wn1, err := NewWNode(n1, filepath.Join(dir, "b"), WNodeOpts{MeshSvc: "control", MeshTLS: srvCfg})
+		if err != nil {
+			return vx.Inconclusive("node n1: %v", err)
+		}
+		defer wn1.Close()
+		if vx.WaitFor(20*time.Second, 20*time.Millisecond, func() string {
+			if n.Status().RoutingTable["n1"] == "" {
+				return "no route"
+			}
+			return ""
+		}) != "" {
+			return vx.Inconclusive("no route to n1")
+		}
+		targetNode, targetType = "n1", "nosuchtype"
+	}
+	_ = n.SetClientTLSConfig("tlsc", cliCfg, [][]byte{})
 	wn, err := NewWNode(n, dir, WNodeOpts{})
 	if err != nil {
 		return vx.Inconclusive("node: %v", err)
@@ -74,7 +146,7 @@ func execC19(b []byte) vx.Verdict {
 
 	var secrets, uncon []C19Param
 	plain := map[string]string{}
-	req := map[string]interface{}{"node": "absent", "worktype": "prod"}
+	req := map[string]interface{}{"node": targetNode, "worktype": targetType}
 	for _, p := range s.Params {
 		req[p.Key] = p.Val
 		switch isSecretKey(p.Key) {
@@ -89,7 +161,7 @@ func execC19(b []byte) vx.Verdict {
 	if s.TLS {
 		req["tlsclient"] = "tlsc"
 	}
-	labels := []string{fmt.Sprintf("secrets=%d", len(secrets)), fmt.Sprintf("tls=%v", s.TLS)}
+	labels := []string{fmt.Sprintf("secrets=%d", len(secrets)), fmt.Sprintf("tls=%v", s.TLS), "remote=" + targetNode}
 	var conns []*Ctl
 	leak := func(where string, data []byte) *vx.Verdict {
 		for _, p := range secrets {
